@@ -38,7 +38,48 @@ def forward_reference_files(r, pool):
     return files
 
 
+REJECTED = []      # files the specification's checker refuses: run without the machine (see judge_rejected)
+
+
+def judge_rejected(V):
+    """every permutation of the REJECTED files is executed directly; if the loader accepts them, success and graph must not depend
+    on the order of the stanzas"""
+    import graphiso as G
+    d = C.workdir("c08_rejected")
+    cases = []
+    for c in REJECTED:
+        st = c["prog"]["stanzas"]
+        for pi, perm in enumerate(itertools.permutations(range(len(st)))):
+            cc = json.loads(json.dumps(c))
+            cc["prog"]["stanzas"] = [json.loads(json.dumps(st[j])) for j in perm]
+            cc["id"] = "%s~p%d" % (c["id"], pi)
+            cases.append(cc)
+    raw, out = os.path.join(d, "raw.ndjson"), os.path.join(d, "out.ndjson")
+    C.write_ndjson(raw, [X.strip_nulls(c) for c in cases])
+    st_, _ = C.run_cases(raw, out)
+    if st_ != "ok":
+        V.violation("c08rej-crash", {"property": PROP, "detail": "executing the permutations of files that break the locality rules made the process " + st_}, {"observed": "abort"})
+        return
+    groups = {}
+    for c in C.read_ndjson(out):
+        groups.setdefault(c["id"].split("~")[0], []).append(c)
+    for gid, cs in groups.items():
+        outs = [c.get("outcome", {}) for c in cs]
+        if all(o.get("status") == "load_err" for o in outs):
+            continue
+        base = outs[0]
+        for c, o in zip(cs[1:], outs[1:]):
+            differs = (o.get("status") == "ok") != (base.get("status") == "ok") or \
+                (o.get("status") == "ok" and G.isomorphic(o["graph"], base["graph"]) is False)
+            if differs:
+                V.violation(gid + "-order", {"property": PROP, "dsl_text": c.get("text"), "first_order": cs[0].get("text"), "a": base, "b": o,
+                                             "detail": "the file is accepted and its outcome depends on the order of its stanzas: %s vs %s" % (base.get("status"), o.get("status"))},
+                            {"observed": "order-dependent"})
+                break
+
+
 def make_cases(tier):
+    del REJECTED[:]
     d = C.workdir("c08")
     raw = os.path.join(d, "gen.ndjson")
     n = 40 if tier == "quick" else 500
@@ -178,6 +219,16 @@ def make_cases(tier):
         A.stanza(qm, [A.edge(sv("a"), sv("b")), A.attre(sv("a"), sv("b"), A.attr("k", A.integer(1)))]),
         A.stanza(qm, [A.edge(sv("b"), sv("a")), A.attre(sv("b"), sv("a"), A.attr("back", A.integer(1))), A.edge(sv("a"), sv("b"))]),
     ]), 5, "lazy"))
+    # a condition that depends on another stanza's scoped variable (refused by the loader; were it accepted, the outcome would have
+    # to be the same in every order all the same)
+    REJECTED.append(A.case("c08cond-lazy", A.file([
+        A.stanza(qm, [A.let(sv("lang"), A.string("python"))]),
+        A.stanza(qm, [A.iff(([A.cond("bool", A.call("eq", sv("lang"), A.string("python")))], [A.node(A.var("n"))]))]),
+    ]), 2, "lazy"))
+    REJECTED.append(A.case("c08cond2-lazy", A.file([
+        A.stanza(qm, [A.let(sv("txt"), A.string("ab"))]),
+        A.stanza(qm, [A.scan(A.call("format", A.string("{}{}"), sv("txt"), A.string("x")), ("a", [A.node(A.var("n"))]))]),
+    ]), 2, "lazy"))
     # a stanza whose query is the bare wildcard, in every position of the file
     base.append(A.case("c08wild-lazy", A.file([
         A.stanza("(pass_statement) @p ", [A.node(A.svar(A.cap("p"), "n"))]),
@@ -295,6 +346,7 @@ def run(tier):
     progs = progs + wprogs
     sample = sample + wsample
     run.add_cases("c08", cases)
+    judge_rejected(run.V)
     run.states += mstats["distinct"]
     run.trans += mstats["states"]
     run.classify_all(panic_only=True)
